@@ -116,6 +116,7 @@ type job struct {
 	tail   string
 	inflt  []inflight
 	wall   float64
+	tier   string // overrides the run's tier when set (cover children run the quick case lists)
 }
 
 type inflight struct {
@@ -132,6 +133,7 @@ func main() {
 	onlyCfg := flag.String("cfg", "", "only this configuration")
 	par := flag.Int("par", 3, "children in parallel")
 	noKnown := flag.Bool("no-known", false, "ignore known_findings.jsonl (report everything as VIOLATION)")
+	coverF := flag.Bool("cover", false, "also build every unit with -cover -coverpkg=<anchor packages>, run it once and account statement coverage of the anchor files in the evidence (implied by --tier thorough unless VERIF_NOCOVER=1)")
 	flag.Usage = func() { fmt.Fprintln(os.Stderr, "usage: vcheck [flags] <ID>"); flag.PrintDefaults() }
 	// allow "vcheck C01 --tier quick" as well as flags first
 	args := os.Args[1:]
@@ -186,6 +188,7 @@ func main() {
 		os.Exit(2)
 	}
 	ignoreKnown = *noKnown
+	withCover = *coverF || (*tier == "thorough" && os.Getenv("VERIF_NOCOVER") == "" && *replay == "" && *onlyCfg == "")
 	os.Exit(run(id, *tier, *seed, rp, *only, *onlyCfg, *par))
 }
 
@@ -270,6 +273,15 @@ func run(id, tier string, seed int64, rp *Replay, only, onlyCfg string, par int)
 		if len(batches) == 0 {
 			batches = []string{u.Run}
 		}
+		if withCover && rp == nil {
+			has := false
+			for _, c := range cl {
+				has = has || c == "cover"
+			}
+			if !has {
+				cl = append(append([]string{}, cl...), "cover")
+			}
+		}
 		for _, c := range cl {
 			if onlyCfg != "" && c != onlyCfg {
 				continue
@@ -286,8 +298,15 @@ func run(id, tier string, seed int64, rp *Replay, only, onlyCfg string, par int)
 					continue
 				}
 				for r := 0; r < rep; r++ {
-					jobs = append(jobs, &job{unit: u, cfg: c, batch: b, round: r, bin: bin,
-						id: fmt.Sprintf("%s.%s.b%d.r%d", u.Name, c, bi, r)})
+					if c == "cover" && r > 0 {
+						break
+					}
+					jb := &job{unit: u, cfg: c, batch: b, round: r, bin: bin,
+						id: fmt.Sprintf("%s.%s.b%d.r%d", u.Name, c, bi, r)}
+					if c == "cover" {
+						jb.tier = "quick"
+					}
+					jobs = append(jobs, jb)
 				}
 			}
 		}
@@ -297,6 +316,9 @@ func run(id, tier string, seed int64, rp *Replay, only, onlyCfg string, par int)
 	}
 
 	// ---- build
+	if withCover {
+		coverPkgList = coverPkgs(id)
+	}
 	type bres struct {
 		key string
 		err error
@@ -472,6 +494,22 @@ func run(id, tier string, seed int64, rp *Replay, only, onlyCfg string, par int)
 		}
 	}
 
+	// ---- coverage accounting
+	var coverRep map[string]any
+	if withCover {
+		var profs []string
+		for _, j := range jobs {
+			if j.cfg == "cover" {
+				profs = append(profs, filepath.Join(bdir, "run", j.id+".cover"))
+			}
+		}
+		var none bool
+		coverRep, none = coverReport(id, profs)
+		if none {
+			inconclusive = append(inconclusive, "coverage pass: no statement of any anchor file was executed")
+		}
+	}
+
 	// ---- verdict
 	sort.Strings(keys)
 	os.MkdirAll(filepath.Join(evDir, "replay"), 0o755)
@@ -557,6 +595,9 @@ func run(id, tier string, seed int64, rp *Replay, only, onlyCfg string, par int)
 		"violations_reported": vioSummaries,
 		"inconclusive":        inconclusive,
 		"build_wall_s":        round1(buildWall),
+	}
+	if coverRep != nil {
+		cov["anchor_coverage"] = coverRep
 	}
 	ev := map[string]any{
 		"property_id": id, "tier": tier, "seed": seed, "level": "exploration",
@@ -653,7 +694,11 @@ func build(u *Unit, kind, bin, bdir, overlay string) (string, error) {
 	case "asan":
 		args = append(args, "-asan")
 	case "cover":
-		args = append(args, "-cover", "-coverpkg=./...")
+		cp := "./..."
+		if len(coverPkgList) > 0 {
+			cp = strings.Join(coverPkgList, ",")
+		}
+		args = append(args, "-cover", "-coverpkg="+cp)
 	}
 	args = append(args, "-tags", tags, "./"+u.Pkg)
 	cmd := exec.Command("go", args...)
@@ -665,6 +710,9 @@ func build(u *Unit, kind, bin, bdir, overlay string) (string, error) {
 
 func runJob(j *job, bdir, tier string, seed int64) {
 	t0 := time.Now()
+	if j.tier != "" {
+		tier = j.tier
+	}
 	rdir := filepath.Join(bdir, "run")
 	resPath := filepath.Join(rdir, j.id+".result.json")
 	jpath := filepath.Join(rdir, j.id+".journal")
@@ -776,6 +824,11 @@ func readJournal(path string) []inflight {
 }
 
 var ignoreKnown bool
+
+var (
+	withCover    bool
+	coverPkgList []string
+)
 
 func loadKnown() map[string]Known {
 	m := map[string]Known{}
